@@ -127,10 +127,10 @@ UNITS = {
     'K-TLFU-CTOR': dict(engine='kani', files=['harness_tinylfu.rs'],
                         module={'harness_tinylfu.rs': 'lfu::tinylfu::verif_hooks::harness'},
                         configs=['std', 'nostd'],
-                        n=dict(quick=2, thorough=2), bound='sketch sizes 1..=8 in the constructor harness; Bloom::new for entries <= 2^32 and all ratios in (0,1) is complete',
+                        n=dict(quick=2, thorough=2), bound='sketch sizes 1..=8 in the constructor harness; batches of <= 3 accesses over sample sizes <= 3 in the batch-fold harnesses; Bloom::new for entries <= 2^32 and all ratios in (0,1) is complete',
                         timeout=dict(quick=1800, thorough=3600),
                         functions=[dict(function=f, file='src/lfu/tinylfu.rs', line=0, props=['C05', 'C11'])
-                                   for f in ['TinyLFUBuilder::finalize', 'Bloom::new', 'get_size', 'calc_size_by_wrong_positives', 'CountMinSketch::new (no_std build)', 'next_power_of_2']],
+                                   for f in ['TinyLFU::increment_keys', 'TinyLFU::increment_hashed_keys', 'TinyLFUBuilder::finalize', 'Bloom::new', 'get_size', 'calc_size_by_wrong_positives', 'CountMinSketch::new (no_std build)', 'next_power_of_2']],
                         assumptions=['contract assumed for the logarithm: ln(x) in [-745, 0) and not NaN for 0 < x < 1; ceil/floor/mul/div/casts are CBMC\'s exact IEEE models',
                                      'std CountMinSketch::new (SystemTime + StdRng seeding) is not executed; only its sizing arithmetic, shared with the no_std constructor, is']),
     'K-LEAK': dict(engine='kani', jobs=6, files=['harness_raw_life.rs', 'harness_segmented.rs', 'harness_two_queue.rs', 'harness_adaptive.rs'],
